@@ -1,35 +1,43 @@
 (* C05, RoundedRectangle part: points() enumerates exactly what contains() accepts.
    Statements only; proofs are in Proofs/Rrect.v.  Model: Model/Rrect.v (line-by-line model of
    rounded_rectangle/{mod,corner_radii,ellipse_quadrant,points}.rs as of the repairs 00acb94, bf458c0, 8393dcf).
-   rr_ok r: base rectangle within +-2^29 / extents within 2^29 (no i32/u32 saturation), radii non-negative (u32). *)
-From EG Require Import Base.Prelude Model.Geometry Model.Rrect Proofs.Geometry Proofs.Rrect.
+   Domain: rr_dom r = rr_ok r (base rectangle within +-2^29 / extents within 2^29: no i32/u32 saturation; radii non-negative)
+   /\ rr_arith_ok r = true (every intermediate of confine [u32 products radius x side], EllipseQuadrant / EllipseContains
+   [u32, u64], RoundedRectangleContains::new and the scanlines [i32] fits its Rust type), so that the unbounded model and the
+   code compute the same values.  C08_rrect_arith_fits: sides <= 16383 and radii <= 65535 suffice (display scale is far inside).
+   styled_dom r st = rr_dom of stroke_area() and of fill_area(). *)
+From EG Require Import Base.Prelude Model.Geometry Model.Style Model.Rrect Proofs.Geometry Proofs.Curvefacts Proofs.Rrect Proofs.Rrect2.
 From Coq Require Import Sorting.Sorted.
 
 (* contains() is false for every point outside the bounding box *)
 Theorem C05_rrect_contains_in_bbox : forall r p,
-  rr_ok r -> rr_contains r p = true -> contains (rr_bounding_box r) p = true.
-Proof. exact rr_contains_in_bbox. Qed.
+  rr_dom r -> rr_contains r p = true -> contains (rr_bounding_box r) p = true.
+Proof. intros; eapply rr_contains_in_bbox; eauto using rr_dom_ok, styled_dom_ok. Qed.
 
 (* points() = the row-major enumeration of the bounding box filtered by contains():
    each accepted point once, in row-major order, all inside the box, nothing else.
    All corner radii (equal, unequal, oversized = confined, overlapping diagonal corners), all sizes incl. 0. *)
 Theorem C05_rrect_points_spec : forall r,
-  rr_ok r -> rr_points r = filter (rr_contains r) (points (rr_bounding_box r)).
-Proof. exact rr_points_spec. Qed.
+  rr_dom r -> rr_points r = filter (rr_contains r) (points (rr_bounding_box r)).
+Proof. intros; eapply rr_points_spec; eauto using rr_dom_ok, styled_dom_ok. Qed.
 
 Theorem C05_rrect_points_iff_contains : forall r p,
-  rr_ok r -> (In p (rr_points r) <-> rr_contains r p = true).
-Proof. exact rr_points_iff. Qed.
+  rr_dom r -> (In p (rr_points r) <-> rr_contains r p = true).
+Proof. intros; eapply rr_points_iff; eauto using rr_dom_ok, styled_dom_ok. Qed.
 
 Theorem C05_rrect_points_row_major_once : forall r,
-  rr_ok r -> StronglySorted lt_yx (rr_points r) /\ NoDup (rr_points r).
-Proof. intros r H. split; [apply rr_points_sorted|apply rr_points_nodup]; exact H. Qed.
+  rr_dom r -> StronglySorted lt_yx (rr_points r) /\ NoDup (rr_points r).
+Proof. intros r H. split; [apply rr_points_sorted|apply rr_points_nodup]; exact (rr_dom_ok r H). Qed.
 
 (* non-vacuity: the shape of the repaired defect i (20x40, corners (1,10)) and a shape with overlapping
    diagonal corners satisfy the hypotheses and have non-trivial point sets *)
 Example C05_rrect_nonvacuous :
   let r1 := rr_with_equal_corners (R (P 0 0) (S 20 40)) (S 1 10) in
   let r2 := RR (R (P (-3) 2) (S 10 10)) (CR (S 10 10) (S 0 0) (S 10 10) (S 0 0)) in
-  rr_ok r1 /\ rr_ok r2 /\ length (rr_points r1) = 796%nat /\ rr_contains r1 (P 0 0) = false /\
+  rr_dom r1 /\ rr_dom r2 /\ length (rr_points r1) = 796%nat /\ rr_contains r1 (P 0 0) = false /\
   length (rr_points r2) = 58%nat.
-Proof. cbv zeta. unfold rr_ok, rect_ok, point_ok, size_ok, radii_nonneg, sz_nonneg, bound. cbn [rr_rect rr_corners rr_with_equal_corners radii_equal r_tl r_tr r_br r_bl tl sz px py sw sh]. repeat split; try lia; vm_compute; reflexivity. Qed.
+Proof.
+  cbv zeta. unfold rr_dom, rr_ok, rect_ok, point_ok, size_ok, radii_nonneg, sz_nonneg, bound.
+  cbn [rr_rect rr_corners rr_with_equal_corners radii_equal r_tl r_tr r_br r_bl tl sz px py sw sh].
+  repeat split; try lia; vm_compute; reflexivity.
+Qed.
